@@ -14,3 +14,83 @@ package storage
 //@ assumed
 //@ pure
 //@ requires s != nil
+
+//@ prop C09
+// Range predicate of a seek (the keys a scan must return): the key carries the prefix and,
+// when a start is given, its remainder is at or after the start going forwards; going
+// backwards it is before the start, the start itself or an extension of it - the meaning the
+// LevelDB/BoltDB range [Prefix, BytesPrefix(Prefix+Start).Limit) gives.
+//@ spec hasPfx(k seq, p seq) bool = len(k) >= len(p) && forall(i, 0, len(p), k[i] == p[i])
+//@ spec inRange(k seq, p seq, s seq, back bool) bool = hasPfx(k, p) && (len(s) == 0 || (!back && !lexlt(sub(k, len(p), len(k)), s)) || (back && (lexlt(sub(k, len(p), len(k)), s) || hasPfx(sub(k, len(p), len(k)), s))))
+
+//@ func (*MemoryStore).seek$1
+//@ requires lPrefix == len(sPrefix) && lStart == len(sStart)
+//@ ensures[range] result == inRange(key, sPrefix, sStart, false)
+//@ func (*MemoryStore).seek$2
+//@ requires lPrefix == len(sPrefix) && lStart == len(sStart)
+//@ ensures[range] result == inRange(key, sPrefix, sStart, true)
+//@ func (*MemCachedStore).prepareSeekMemSnapshot$1
+//@ requires lPrefix == len(sPrefix) && lStart == len(sStart)
+//@ ensures[range] result == inRange(key, sPrefix, sStart, false)
+//@ func (*MemCachedStore).prepareSeekMemSnapshot$2
+//@ requires lPrefix == len(sPrefix) && lStart == len(sStart)
+//@ ensures[range] result == inRange(key, sPrefix, sStart, true)
+
+// Point reads. One layer keeps two maps chosen by the first key byte; a nil value is a
+// tombstone. What a Store answers for a key is named by sHas/sGet; every implementation
+// states its own answer in the same terms, so a stack of layers reads as one map: the
+// topmost layer holding the key decides, tombstones hide everything below.
+//@ pkg-invariant ErrKeyNotFound != nil
+//@ spec cmOf(s *MemoryStore, k seq) map[string][]byte = ite(k[0] == STStorage || k[0] == STTempStorage, s.stor, s.mem)
+//@ spec sHas(s Store, k seq) bool
+//@ spec sGet(s Store, k seq) seq
+
+//@ iface Store.Get
+//@ assumed
+//@ pure
+//@ ensures (result1 == nil) == sHas(recv, arg0)
+//@ ensures result1 == nil ==> seq(result0) == sGet(recv, arg0)
+//@ ensures result1 != nil ==> result0 == nil
+
+//@ func (*MemoryStore).chooseMap
+//@ requires s != nil && len(key) > 0
+//@ ensures result == cmOf(s, key)
+
+//@ func put
+//@ requires m != nil
+//@ modifies m[key]
+//@ ensures has(m, key) && same(m[key], value)
+
+//@ func (*MemoryStore).Get
+//@ requires s != nil && len(key) > 0
+//@ ensures[lookup] (result1 == nil) == (has(cmOf(s, key), string(key)) && cmOf(s, key)[string(key)] != nil)
+//@ ensures[value] result1 == nil ==> same(result0, cmOf(s, key)[string(key)])
+//@ ensures[miss] result1 != nil ==> result0 == nil && result1 == ErrKeyNotFound
+
+//@ func (*MemCachedStore).Get
+//@ requires s != nil && len(key) > 0 && s.ps != nil
+//@ ensures[tombstone] has(cmOf(&s.MemoryStore, key), string(key)) && cmOf(&s.MemoryStore, key)[string(key)] == nil ==> result0 == nil && result1 == ErrKeyNotFound
+//@ ensures[top] has(cmOf(&s.MemoryStore, key), string(key)) && cmOf(&s.MemoryStore, key)[string(key)] != nil ==> result1 == nil && same(result0, cmOf(&s.MemoryStore, key)[string(key)])
+//@ ensures[below] !has(cmOf(&s.MemoryStore, key), string(key)) ==> (result1 == nil) == sHas(s.ps, key) && (result1 == nil ==> seq(result0) == sGet(s.ps, key)) && (result1 != nil ==> result0 == nil)
+
+// Lock helpers: the mutex operations themselves are erased (sequential semantics, see
+// DESIGN.md); what is checked is that they touch nothing else.
+//@ func (*MemCachedStore).rlock
+//@ requires s != nil
+//@ func (*MemCachedStore).runlock
+//@ requires s != nil
+//@ func (*MemCachedStore).lock
+//@ requires s != nil
+//@ func (*MemCachedStore).unlock
+//@ requires s != nil
+
+// Snapshot of one layer for a scan: the lower store is the one read under the lock, every
+// collected pair is marked existing exactly when it is not a tombstone, and nothing but the
+// fresh result is written. (That each pair is in range and carries the layer's value needs
+// sequence extensionality under a quantifier and is not claimed: see DESIGN.md.)
+//@ func (*MemCachedStore).prepareSeekMemSnapshot
+//@ requires s != nil && len(rng.Prefix) > 0
+//@ ensures[lower] result0 == old(s.ps)
+//@ ensures[exists] forall(i, 0, len(result1), result1[i].Exists == (result1[i].Value != nil))
+//@ loop 0 invariant cap(memRes) == 0 || fresh(memRes)
+//@ loop 0 invariant forall(i, 0, len(memRes), memRes[i].Exists == (memRes[i].Value != nil))
